@@ -14,13 +14,33 @@ from verif import pysel2smt as P
 from verif.engine import Result
 
 LEVEL = "model_checking"
-BOUNDS = {"models": "catalogue programs (static, hierarchical/tuple addresses, vmap, repeat, scan, switch, mask, dimap, nested) - their traceable addresses are the reference",
+BOUNDS = {"models": "catalogue programs (static, hierarchical/tuple addresses, vmap, repeat, scan, switch (incl. branches that disagree on value-vs-sub-map at the call address), mask, dimap, nested) - their traceable addresses are the reference",
           "addresses": "ALL addresses of length 0..4 over an unbounded alphabet (symbolic components) for the shape selection; choice maps mixing valid / unknown / too-deep / prefix addresses for the end-to-end result"}
 ASSUMPTIONS = ["the shape selection computed by the REAL _shape_selection on the model's zero trace is imported as a ground term; its membership function is the source-derived encoding of C18 (engine E2); with C18's complement law, filter(~shape) keeps a value at address a iff a is not selected",
                "the final filter / static_is_empty / None step is evaluated on enumerated concrete choice maps (structural side checks, marked 'side'): it has no value-level input"]
 OUTSIDE = ["dynamic (traced) index components in the constraint", "programs outside the catalogue"]
 
 MODELS = ["inner2", "vmap(inner2)", "scan(kern2)", "switch(inner1,inner2s)", "mask(inner1)", "dimap(inner1)", "composed", "static(vmap)", "static(scan)", "static(switch)", "static(mask)", "repeat(inner1)"]
+
+
+def _sw_leaf(structured_first):
+    """a switch whose branches disagree on leaf-vs-hierarchical at the call address: 'out' holds a value in one branch and a sub-map in the other"""
+    def build():
+        br = [PG.inner1(), PG.Dist("normal")]
+        ar = lambda a: [(a[0],), (a[0], PG._f(1.0))]  # noqa: E731
+        if not structured_first:
+            br.reverse()
+        Sw = PG.Switch(br)
+        return PG.Static("sswl", [("out", Sw, lambda a, r: (a[1],) + tuple(ar(a) if structured_first else ar(a)[::-1]))], lambda a, r: r[0], (PG._f(0.3), jnp.int32(1)))
+
+    return build
+
+
+EXTRA = {"static(switch(inner1,normal))": _sw_leaf(True), "static(switch(normal,inner1))": _sw_leaf(False)}
+
+
+def model_of(nm):
+    return EXTRA[nm]() if nm in EXTRA else PG.catalogue()[nm]()
 
 
 def paths_of(Pm):
@@ -37,7 +57,7 @@ class ShapeLaw:
         res = Result(name=self.name, verdict="error", mode="E2")
         try:
             M = P.get_model(cm)
-            Pm = PG.catalogue()[self.nm]()
+            Pm = model_of(self.nm)
             shape = Pm.gf.get_zero_trace(*Pm.args).get_choices()
             real_sel = cm._shape_selection(shape)
             names = {}
@@ -113,7 +133,7 @@ class SideCheck:
 
     def run(self, pid, known):
         res = Result(name=self.name, verdict="error", mode="structural")
-        Pm = PG.catalogue()[self.nm]()
+        Pm = model_of(self.nm)
         paths = [p for p in paths_of(Pm) if p]
         bogus = [("zz_extra",)] + [p[:-1] + ("zz_leaf",) for p in paths[:2]] + [p + ("zz_deeper",) for p in paths[:1]]
         cands = list(dict.fromkeys(paths + bogus))
@@ -139,6 +159,31 @@ class SideCheck:
                     res.detail = f"choice map with addresses {combo}: invalid_subset addresses {got}, expected {exp}"
                     res.cex = {"combo": [list(c) for c in combo]}
                     return res
+        # choice maps that are a ChoiceMap.switch over a TRACED index (what a jitted caller builds): same expectation
+        for pa, pb in itertools.combinations(cands[:5], 2):
+            got_box = []
+
+            def under_trace(i, pa=pa, pb=pb):
+                chm = ChoiceMap.switch(i, [chm_from(Pm, (pa,)), chm_from(Pm, (pb,))])
+                out = chm.invalid_subset(Pm.gf, Pm.args)
+                got_box.append(None if out is None else addresses_in(out, cands))
+                return i
+
+            try:
+                jax.make_jaxpr(under_trace)(jnp.int32(0))
+            except Exception as e:  # noqa: BLE001
+                res.verdict, res.reproduced = "raised", True
+                res.detail = f"switch(traced, {pa}, {pb}): {type(e).__name__}: {str(e)[:200]}"
+                res.cex = {"switch": [list(pa), list(pb)]}
+                return res
+            n += 1
+            bad = sorted(p for p in {pa, pb} if p not in paths)
+            exp = None if not bad else bad
+            if got_box[0] != exp:
+                res.verdict, res.reproduced = "sat", True
+                res.detail = f"ChoiceMap.switch(traced idx, [{pa}, {pb}]): invalid_subset addresses {got_box[0]}, expected {exp}"
+                res.cex = {"switch": [list(pa), list(pb)]}
+                return res
         res.verdict, res.detail, res.leaves = "unsat", f"{n} choice maps evaluated", n
         return res
 
@@ -147,8 +192,8 @@ def obligations(tier, seed):
     cat = PG.catalogue()
     names = [m for m in MODELS if m in cat] if tier == "quick" else [m for m in cat if cat[m]().kind != "dist"]
     obs = []
-    for nm in names:
+    for nm in names + list(EXTRA):
         obs.append(ShapeLaw(nm))
-    for nm in names[:6] if tier == "quick" else names:
+    for nm in (names[:6] if tier == "quick" else names) + list(EXTRA):
         obs.append(SideCheck(nm))
     return obs
